@@ -30,6 +30,17 @@ CFG = {
         "Swat4.C09.Example.init_s0",
         "Swat4.C09.facts_ok",
         "Swat4.C09.start_attempts",
+        "Swat4.C09.C09_refines_spec",
+        "Swat4.C09.C09_committed_result_spec",
+        "Swat4.C09.C09_committedOps_length",
+        "Swat4.C09.C09_listing_committed",
+        "Swat4.C09.Example.init_s1",
+        "Swat4.C09.facts_writes_fenced",
+        "Swat4.C09.facts_tx_calls",
+        "Swat4.C09.facts_writers_exec_on_tx",
+        "Swat4.C09.facts_tx_provenance",
+        "Swat4.C09.facts_lock_key",
+        "Swat4.C09.facts_lock_setnx",
     ],
     "shards": (4, 16),
     "nontrivial": _c09_nontrivial,
@@ -47,6 +58,13 @@ CFG = {
         "lock tokens are never reused (redislock draws 16 random bytes; the model hands out a counter) - Init.tokInj/tokLt",
         "one storage command = one atomic step (Redis executes commands and MULTI/EXEC batches without interleaving); "
         "WATCH observes exactly the modifications of the lock key (SET NX, DEL, and - per Sys.dirties - expiry)",
+        "the protocol shape the machine hard-codes - all row writes of save/remove queued in ONE TxPipelined closure, that "
+        "TxPipelined called on the tx of Guard's Watch callback, lock key = Sprintf(lockKeyFmt, svr.Addr.String()) = the "
+        "address the rows are written under, one SetNX carrying the lease as TTL and no separate expire, token drawn inside "
+        "Guard, release = GET then a separate DEL - is no longer an unchecked assumption: it is regenerated from the Go source "
+        "on every run (Gen/Facts.lean, section storewrites) and pinned literally by facts_writes_fenced, facts_tx_calls, "
+        "facts_writers_exec_on_tx, facts_tx_provenance, facts_lock_key, facts_lock_setnx; what remains assumed is that the "
+        "syntactic shape means what it says (go-redis: TxPipelined on a *redis.Tx sends MULTI..EXEC on the WATCHing connection)",
         "real time (1 s lease, 100 ms backoff) is abstracted to nondeterministic expire/tick events; crashes = a client that is "
         "never scheduled again (all theorems hold for every schedule, so also for those)",
         "the theorems quantify over every number of clients, addresses and schedule length; the differential run samples "
@@ -55,6 +73,19 @@ CFG = {
     "trusted_base": COMMON_TRUSTED + [
         "Model/StoreMachine.lean wstep/rstep/Sys.step as the meaning of 'the repository code' (validated: trace, results and "
         "final keyspace agree with the real repository on every generated schedule)",
+        "harness/internal/facts/storewrites.go (go/ast extractor, trusted to report call sites faithfully). It recognises: a Redis "
+        "call = a call expression X.M(args) with at least one argument whose method name M belongs to the method set of go-redis' "
+        "Pipeliner / *Tx / *Client (read by reflection from the compiled go-redis); M in a fixed read-only list (Get, HGet, HMGet, "
+        "ZRange..., SInter, SCard, ...; the names that actually occur are pinned by facts_writes_fenced) = read; Watch / Pipelined / "
+        "TxPipelined / Pipeline / TxPipeline = transaction plumbing (all listed in storeTxCalls); every other M = WRITE. A write is "
+        "'inside a transaction' only if its receiver is an identifier that resolves (go/parser scope resolution) to a parameter of "
+        "the innermost enclosing function literal and that literal is an argument of a call R.TxPipelined(...); it is then listed "
+        "with R. Identifiers that resolve to a parameter are printed with their declared type ('tx *redis.Tx'), anything else as "
+        "source text, so an alias or a field never prints like the parameter. Every unrecognised shape - a write through an alias, "
+        "in a nested closure or helper function, on tx / r.client directly, under Pipelined - is reported as a write OUTSIDE a "
+        "transaction (fails safe: the literal lists in the theorems change). Not covered: writes issued from other files/packages "
+        "(Lua scripts, other repositories touching servers:* keys), methods reached through an interface value whose name is not a "
+        "go-redis method, and build-tag variants of the four files",
     ],
     "manifest": {
         "text": "Lean theorems over the interleaved system Sys (any number of writers/readers, any addresses, any event list incl. "
@@ -68,14 +99,23 @@ CFG = {
                 "that decision's result, and every call commits at most once; C09_error_no_effect - a call that returned an "
                 "error committed nothing; C09_bounded/C09_finishes - a call executes at "
                 "most 75 (<= 5*16) storage commands in any schedule and has returned once scheduled 80 times; C09_listing - "
-                "Filter's HMGET step cannot fail and returns only records stored at that instant. The model is tied to "
+                "Filter's HMGET step cannot fail and returns only records stored at that instant; C09_listing_committed - each of "
+                "them is an initial row or exactly the record saved by a logged commit. C09_refines_spec / C09_committed_result_spec - "
+                "through C11's abstraction relation Rel: from an initial store standing for specification state a0, after any schedule "
+                "the store stands for a0 with the committed operations folded in commit order by the SPECIFICATION's add/update/remove "
+                "(Spec/Registry.lean), and the n-th committed call returns the specification's result on the state after the first n. "
+                "facts_writes_fenced / facts_tx_calls / facts_tx_provenance / facts_lock_key / facts_lock_setnx - the protocol shape the "
+                "machine hard-codes (writes only inside the TxPipelined closure on Guard's tx, lock key expression, SetNX with the lease "
+                "as TTL, token drawn in Guard, separate DEL in release) equals the shape regenerated from servers.go / redislock.go by a "
+                "go/ast inventory of every Redis write call site. The model is tied to "
                 "servers.go / redislock by replaying generated command-level schedules on the real repository under a go-redis "
                 "hook and comparing traces, results and final keyspace.",
         "level_note": "Trusted: Lean kernel; axioms propext, Quot.sound, Classical.choice; Model/Store.lean + Model/StoreMachine.lean "
                       "as a transcription of servers.Repository + redislock.Guard at storage-command granularity (differentially "
                       "validated, finite); Redis command atomicity and WATCH semantics as modelled; JSON (de)serialisation of "
-                      "stored records taken as the identity. Not proved here: that decide equals the abstract registry step of "
-                      "Spec/Registry.lean (C11), fairness/real-time liveness (a call that is never scheduled never returns).",
+                      "stored records taken as the identity; the go/ast fact extractor (storewrites.go) as a faithful report of call "
+                      "sites, and go-redis' TxPipelined-on-Tx = MULTI..EXEC on the WATCHing connection. Not proved here: "
+                      "fairness/real-time liveness (a call that is never scheduled never returns).",
         "technique": "Lean 4 proof (inductive invariant over all interleavings, ghost lock-version / last-writer state, "
                      "termination measure) + differential correspondence at storage-command granularity",
         "design_ref": "DESIGN.md §5 C09",
